@@ -85,6 +85,9 @@ func (g *UpdGen) freshRoot(pref []string) string {
 func (g *UpdGen) attrsOfType(ts ...string) []string {
 	out := []string{}
 	for _, kv := range g.item {
+		if len(kv.K) > 0 && kv.K[0] == ':' {
+			continue
+		}
 		for _, t := range ts {
 			if kv.V.T == t {
 				out = append(out, string(kv.K))
